@@ -21,6 +21,20 @@ def globB : List Term → Bytes → Bool
   | .star :: ts, c :: v => globB ts (c :: v) || globB (.star :: ts) v
 termination_by ts v => (ts.length, v.length)
 
+/-- no two text terms next to each other -/
+def noAdj : List Term → Bool
+  | [] => true
+  | [_] => true
+  | a :: b :: ts => !(a.isText && b.isText) && noAdj (b :: ts)
+
+/-- what the parsers guarantee (parser/seqql_filter.go:parseSeqQLKeyword/parseSeqQLText, parser/term_builder.go):
+non-empty, never two text terms next to each other, no empty text term strictly inside; executable, exposed by
+the driver for the parser channel -/
+def wfB (terms : List Term) : Bool :=
+  !terms.isEmpty && noAdj terms && (middleTerms terms).all (fun d => !d.isEmpty)
+
+def WF (terms : List Term) : Prop := wfB terms = true
+
 theorem glob_nil_iff (v : Bytes) : Glob [] v ↔ v = [] := by
   constructor
   · intro h; cases h; rfl
